@@ -4,6 +4,7 @@
 #include "celma/format/grouped_int2string.hpp"
 #include <cstdint>
 #include <string>
+#include "celma/format/string_to.hpp"
 static const uint64_t P10[21] = {1ull,10ull,100ull,1000ull,10000ull,100000ull,1000000ull,10000000ull,100000000ull,1000000000ull,10000000000ull,
   100000000000ull,1000000000000ull,10000000000000ull,100000000000000ull,1000000000000000ull,10000000000000000ull,100000000000000000ull,
   1000000000000000000ull,10000000000000000000ull, 0};
@@ -47,4 +48,33 @@ HX void hx_i2s64(uint64_t dig, uint64_t kind, uint64_t variant) {
       check_text((const unsigned char*) s.data(), (int) s.size(), mag, (int) dig, kind == 2, grouped, gc);
    }
    vs_note("dig", dig);
+}
+
+// "converting the text back yields the original value": int2string() -> stringTo< T>() for every type; the value is symbolic
+// within the type and the decade given by the driver (dig digits; neg: negative values)
+template <typename T> static void back(uint64_t dig, uint64_t neg) {
+   uint64_t raw = vs_u64("v");
+   // the value as a 64-bit pattern: [0, 2^bits) for unsigned types, [0, 2^(bits-1)) or [2^64 - 2^(bits-1), 2^64) for signed ones
+   const unsigned bits = 8 * sizeof(T);
+   if (!std::is_signed<T>::value) { if (bits < 64) vs_assume(raw < ((uint64_t) 1 << bits)); }
+   else if (!neg) vs_assume(raw < ((uint64_t) 1 << (bits - 1)));
+   else vs_assume(raw >= (uint64_t) 0 - ((uint64_t) 1 << (bits - 1)));
+   T value = (T) raw;
+   uint64_t mag = (std::is_signed<T>::value && value < 0) ? (uint64_t) 0 - (uint64_t) (int64_t) value : (uint64_t) value;
+   if (dig == 1) vs_assume(mag < 10); else vs_assume(mag >= P10[dig - 1]);
+   if (dig < 20) vs_assume(mag < P10[dig]);
+   std::string s = celma::format::int2string(value);
+   int rc = 0; T got = 0;
+   try { got = celma::format::stringTo<T>(s); } catch (...) { rc = 1; }
+   vs_assert(rc == 0, "converting the text back does not fail");
+   if (rc == 0) vs_assert(got == value, "converting the text back yields the original value");
+   vs_note("dig", dig);
+}
+HX void hx_i2s_back(uint64_t type, uint64_t dig, uint64_t neg) {
+   switch (type) {
+   case 0: back<uint8_t>(dig, neg); break;   case 1: back<int8_t>(dig, neg); break;
+   case 2: back<uint16_t>(dig, neg); break;  case 3: back<int16_t>(dig, neg); break;
+   case 4: back<uint32_t>(dig, neg); break;  case 5: back<int32_t>(dig, neg); break;
+   case 6: back<uint64_t>(dig, neg); break;  default: back<int64_t>(dig, neg); break;
+   }
 }
